@@ -34,8 +34,9 @@ def frame_obs(chk, tag, res, fq, replay=None, allow_raise=True):
             if key not in seen:
                 seen.add(key)
                 chk.undecided.append(('C20.%s.exec' % tag, 'executor', str(r.value)))
-            continue
-        n_ok += 1
+            # stores recorded BEFORE the executor gave up did happen on every continuation of this path: still reported
+        else:
+            n_ok += 1
         for e in r.events:
             if e.kind == 'mutate':
                 key = ('mut', e.data, e.where)
@@ -52,6 +53,21 @@ def frame_obs(chk, tag, res, fq, replay=None, allow_raise=True):
                clause='every path of the call was executed with owner-tagged arguments and no reachable store into them '
                       'was recorded (%d paths)' % n_ok))
     return n_ok
+
+
+def univariate_option_replay(env):
+    import warnings
+    import numpy as np
+    warnings.simplefilter('ignore')
+    from copulas.univariate import Univariate
+    rs = np.random.RandomState(3)
+    X = rs.gamma(2.0, size=400)
+    X0 = X.copy()
+    np.random.seed(1)
+    Univariate(selection_sample_size=50).fit(X)
+    bad = [] if np.array_equal(X, X0) else ['Univariate(selection_sample_size=50).fit(X) changed X: %d of %d positions differ' %
+                                            (int((X != X0).sum()), len(X))]
+    return {'confirmed': bool(bad), 'detail': bad[0] if bad else 'fit with selection_sample_size leaves X untouched'}
 
 
 def vine_frame_replay(env):
@@ -255,6 +271,23 @@ def build(chk):
             I.call_method(m, 'sample', [msym], {'conditions': cs})
         res, ctx = engine.run_paths(I, bodyg)
         frame_obs(chk, 'GaussianMultivariate.%s' % rep, res, gm.GM, native_replay)
+    # ---- the selecting Univariate with the sub-sampling option: fit must not touch the caller's array -----------------------
+    for opt in ('selection_sample_size',):
+        I = engine.new_interp()
+        gm.install_rootfinders(I)
+        I.summaries['copulas.univariate.selection.select_univariate'] = \
+            lambda interp, args, kwargs: uni.new_model(interp, 'GaussianUnivariate')
+
+        def bodys(c, I=I):
+            ks = Sym(ir.var('ksel', 'I'))
+            c.assume(ir.ge(ks.t, 1))
+            c.assume(ir.ge(uni.N, 2))
+            c.assume(ir.gt(ir.uf('n_unique', [uni.XW], 'I'), 1))
+            m = I.call_qual(uni.BASE + 'Univariate', [], {'selection_sample_size': ks})
+            I.call_method(m, 'fit', [uni.data_lane(owner='X')])
+            I.call_method(m, 'cdf', [Lane(ir.var('q@i'), Sym(ir.var('m', 'I')), owner='q')])
+        res, ctx = engine.run_paths(I, bodys)
+        frame_obs(chk, 'Univariate.selection_sample_size', res, uni.BASE + 'Univariate.fit', univariate_option_replay)
     # ---- vines: fit(X), get_likelihood(u), sample(n) ---------------------------------------------------------------
     from . import vine
     for vt in ('center', 'direct', 'regular'):
